@@ -242,7 +242,7 @@ class Recorder:
         e['nonneg'] = bool(err >= 0) and bool(out[1] >= 0) and all(o.benefit is None or o.benefit >= 0 for o in self.objects())
         e['err_true'] = bool(abs(err - norm_error(res, S['ref'], S['norm'])) <= 1e-12 * max(1.0, abs(err)))
         indep = len(self.counter.seen - self.ignore)
-        e['np_true'] = int(np_rep) == indep
+        e['np_true'] = int(np_rep) == indep or getattr(self, 'skip_np', False)
         e['_np_indep'] = indep
         if self.check_comb:
             ind = independent_combination(S)
@@ -276,6 +276,19 @@ def run_once(c, lims, reeval=False, checks=True, evaluation_points=None):
                                                 min_evaluations=lims['min'], print_output=False, reevaluate_at_end=reeval,
                                                 evaluation_points=evaluation_points)
     return S, rec, ret
+
+
+def run_again(S, rec, c, lims):
+    """a further performSpatiallyAdaptiv on the SAME driver object (histories and counters must start afresh); the function cache
+    of the first run is still filled, so the independent evaluation count is not comparable and that clause is skipped"""
+    rec.events = []
+    rec.results = []
+    rec.tol = lims['tol']
+    rec.skip_np = True
+    with impl.quiet(), impl.watchdog(c.get('timeout', 240)):
+        ret = S['combi'].performSpatiallyAdaptiv(c['lmin'], c['lmax'], S['ec'], tol=lims['tol'], max_evaluations=lims['max'],
+                                                min_evaluations=lims['min'], print_output=False)
+    return ret
 
 
 def ret_event(S, rec, ret, c, lims, with_c05=True):
